@@ -6,6 +6,7 @@ import (
 	"encoding/json"
 	"fmt"
 	"runtime/metrics"
+	"sort"
 	"strings"
 	"syscall"
 
@@ -804,6 +805,35 @@ func c08Cases(c *mc.Ctx) ([]c08Case, int) {
 							add(c08Case{Family: "gcs", Input: mc.Hex(tail), A: p, B: mi, C: q, D: int64(N)<<8 | 1})
 						}
 					}
+				}
+			}
+		}
+	}
+	// 7b. declared element counts at which 32-bit arithmetic on N wraps: N*(P+1) crossing a multiple of
+	// 2^32 (a bound computed from the count and the bits per element), powers of two and 3*2^j
+	{
+		nset := map[uint64]bool{}
+		for j := uint(16); j < 32; j++ {
+			nset[1<<j], nset[3<<j&(1<<32-1)], nset[1<<j-1] = true, true, true
+		}
+		for _, d := range []uint64{2, 20, 21, 33, 34} {
+			for k := uint64(1); k < d; k++ {
+				base := (k<<32 + d - 1) / d
+				nset[base], nset[base+1] = true, true
+			}
+		}
+		var ns []uint64
+		for n := range nset {
+			if n > 0 && n < 1<<32 {
+				ns = append(ns, n)
+			}
+		}
+		sort.Slice(ns, func(i, j int) bool { return ns[i] < ns[j] })
+		for _, N := range ns {
+			for _, tail := range [][]byte{{}, {0x00, 0x00, 0x00}, {0xff, 0xff, 0xff}} {
+				for _, p := range []int64{0, 1, 19, 20, 32, 33} {
+					add(c08Case{Family: "gcs", Input: mc.Hex(append(ref.CompactSize(N), tail...)), A: p, B: 1, C: 1})
+					add(c08Case{Family: "gcs", Input: mc.Hex(tail), A: p, B: 1, C: 1, D: int64(N)<<8 | 1})
 				}
 			}
 		}
